@@ -701,7 +701,24 @@ class _HTTPConnection(httputil.HTTPMessageDelegate):
             self._release()
             assert self.client is not None
             fut = self.client.fetch(new_request, raise_error=False)
-            fut.add_done_callback(lambda f: final_callback(f.result()))
+
+            def on_redirect_done(f: Any) -> None:
+                # Even with raise_error=False the future fails for errors
+                # that are not response codes (timeouts, connection
+                # failures); those must still complete the original fetch.
+                try:
+                    response = f.result()
+                except Exception as e:
+                    response = HTTPResponse(
+                        new_request,
+                        599,
+                        error=e,
+                        request_time=self.io_loop.time() - self.start_time,
+                        start_time=self.start_wall_time,
+                    )
+                final_callback(response)
+
+            fut.add_done_callback(on_redirect_done)
             self._on_end_request()
             return
         if self.request.streaming_callback:
